@@ -2,7 +2,7 @@
    dispatch.  This file holds the single-threaded half (the observer is a listener) and the
    facts about emptyQueue()'s generated body that the thread-level argument uses. *)
 From Coq Require Import List Arith NArith ZArith Bool.
-From EV Require Import QModel QBalance.
+From EV Require Import QModel QBalance QConc QConcInv.
 From EV.gen Require GenQ.
 Import ListNotations.
 
@@ -36,6 +36,26 @@ Theorem C11_reads_list_then_counter : GenQ.empty_queue_reads = [0; 1].
 Proof. reflexivity. Qed.
 
 Print Assumptions C11_reads_list_then_counter.
+
+(* under threads, for EVERY set of thread programs and EVERY schedule (QConcInv.v): the "in
+   dispatch" counter is exactly the number of processing calls that are between their increment
+   and their decrement (pd = outstanding decrements of a thread's remaining code), and it is
+   back at 0 whenever no call is in progress.  NOT mechanised: the step from this to "emptyQueue
+   never answers true while an event whose enqueue completed earlier is still in dispatch" for
+   concurrent observers (that a processing call holds events only between its increment and its
+   decrement, and the two-read history argument) — replayed on schedules instead *)
+Theorem C11_threads_counter_counts_processing_calls_in_flight :
+  forall progs schedule fuel,
+    sum_pd (ths (reached progs schedule fuel)) = Some (cec (shs (reached progs schedule fuel))).
+Proof. exact empty_counter_counts_the_processing_calls_in_flight. Qed.
+Print Assumptions C11_threads_counter_counts_processing_calls_in_flight.
+
+Theorem C11_threads_counter_restored_at_rest :
+  forall progs schedule fuel,
+    Forall (fun th => code th = []) (ths (reached progs schedule fuel)) ->
+    cec (shs (reached progs schedule fuel)) = 0%Z.
+Proof. exact empty_counter_restored_at_rest. Qed.
+Print Assumptions C11_threads_counter_restored_at_rest.
 
 Example C11_in_listener_example :
   exists st, q_run true false (fun _ _ => false) (fun c n => [QEmpty]) (fun _ _ => ([], true)) 5 q_init
